@@ -93,7 +93,7 @@ def intake(a):
 def run(a):
     ids = a.ids or sorted(os.listdir(os.path.join(HERE, 'seeded')))
     rc, st = sh('git -C /repo status --porcelain -- streamz')
-    if st.strip():
+    if st.strip() and not a.scratch:
         print('refusing: /repo has uncommitted changes')
         return 2
     for i in ids:
@@ -103,7 +103,15 @@ def run(a):
             continue
         meta = json.load(open(mp))
         props = a.props.split(',') if a.props else [meta['property']]
-        rc, out = sh('git -C /repo apply %s' % os.path.join(d, 'patch.diff'))
+        env = None
+        if a.scratch:
+            # a scratch copy of /repo's HEAD outside /repo and /verif (used while something else is busy with /repo)
+            sh('rm -rf /tmp/sz_seeded_mut /tmp/sz_seeded_clean; mkdir -p /tmp/sz_seeded_mut /tmp/sz_seeded_clean; '
+               'git -C /repo archive HEAD | tar -x -C /tmp/sz_seeded_mut; git -C /repo archive HEAD | tar -x -C /tmp/sz_seeded_clean')
+            rc, out = sh('patch -p1 -s < %s' % os.path.join(d, 'patch.diff'), cwd='/tmp/sz_seeded_mut')
+            env = dict(os.environ, STREAMZ_SRC='/tmp/sz_seeded_mut')
+        else:
+            rc, out = sh('git -C /repo apply %s' % os.path.join(d, 'patch.diff'))
         if rc != 0:
             print(i, 'patch does not apply:', out[-200:])
             meta['checks']['_apply'] = 'failed'
@@ -112,7 +120,7 @@ def run(a):
         try:
             for p in props:
                 t0 = time.time()
-                rc, out = sh('timeout 900 %s check.py %s --tier quick --budget %s --no-evidence' % (PY, p, a.budget), cwd=HERE)
+                rc, out = sh('timeout 900 %s check.py %s --tier quick --budget %s --no-evidence' % (PY, p, a.budget), cwd=HERE, env=env)
                 lines = [ln for ln in out.splitlines() if ln.startswith('VIOLATION') or ln.startswith('  oracle=')]
                 verdict = 'CAUGHT' if rc == 1 else ('missed' if rc == 0 else 'harness-error')
                 meta['checks'][p] = {'verdict': verdict, 'seconds': round(time.time() - t0, 1), 'budget': a.budget,
@@ -121,13 +129,15 @@ def run(a):
                     meta['checks'][p]['replay'] = lines[0].split('replay=')[1].strip()
                 print('%-28s %s %-8s %5.1fs %s' % (i, p, verdict, time.time() - t0, (lines[1][9:170] if len(lines) > 1 else out[-200:] if rc not in (0, 1) else '')))
         finally:
-            sh('git -C /repo checkout -- .')
+            if not a.scratch:
+                sh('git -C /repo checkout -- .')
         # cross-check: what caught the change must not fire on the unchanged tree (else it is a false alarm of
         # the machinery, not a detection)
         for p in props:
             c = meta['checks'].get(p) or {}
             if c.get('verdict') == 'CAUGHT' and c.get('replay'):
-                rc, out = sh('timeout 300 %s check.py --replay %s --quiet' % (PY, c['replay']), cwd=HERE)
+                rc, out = sh('timeout 300 %s check.py --replay %s --quiet' % (PY, c['replay']), cwd=HERE,
+                             env=dict(os.environ, STREAMZ_SRC='/tmp/sz_seeded_clean') if a.scratch else None)
                 c['replay_on_unchanged_tree'] = 'NOT-REPRODUCED' if (rc == 0 and 'NOT-REPRODUCED' in out) else 'REPRODUCED (false alarm!)' if 'REPRODUCED' in out else 'error rc=%s' % rc
                 if c['replay_on_unchanged_tree'] != 'NOT-REPRODUCED':
                     print('   !!', i, p, c['replay_on_unchanged_tree'], out[-300:])
@@ -149,6 +159,7 @@ def main():
     r.add_argument('ids', nargs='*')
     r.add_argument('--budget', default='30')
     r.add_argument('--props')
+    r.add_argument('--scratch', action='store_true')
     a = ap.parse_args()
     if a.cmd == 'intake':
         return intake(a)
